@@ -37,12 +37,6 @@ row("crate::algorithms::mul::addmul_nx1", "diverge", "debug_unreachable!#switch"
     "assume!(lhs.len() == a.len()): optimisation hint, callers pass equal-length windows (documented precondition of the kernel, C15)")
 row("crate::algorithms::mul::submul_nx1", "diverge", "debug_unreachable!#switch",
     "assume!(lhs.len() == a.len()): optimisation hint, callers pass equal-length windows (documented precondition of the kernel, C15)")
-for fn_ in ("adc_n", "sbb_n"):
-    row("crate::algorithms::add::%s" % fn_, "assert:BoundsCheck", "BoundsCheck[i]",
-        "rhs[i] for i < lhs.len(): the kernel's contract is `lhs += rhs` / `lhs -= rhs` over equal-length windows (rhs at "
-        "least as long as lhs); its only callers are the add-back steps of the Knuth division kernel, which pass "
-        "windows of the divisor's length (C14, N/A). lhs[i] itself is discharged by the interval engine",
-        any_ordinal=True)
 row("crate::algorithms::gcd::matrix::Matrix::from", "diverge", "assert!#partial_cmp",
     "assert!(a >= b): Lehmer loop invariant, discharged by a loop invariant not by dominance (C12 is N/A)")
 for i in range(1, 7):
